@@ -93,12 +93,27 @@ class LatencyMonitor(Monitor):
         super().__init__(run)
         self.t = run.tracker
 
-    def _boundary(self, elapsed_s, d):
-        """-1 clearly before, 0 exact boundary, +1 clearly after"""
+    def _boundary(self, elapsed_s, d, rec=None):
+        """-1 before (or exactly at) the delay, +1 after it, 0 = float-fragile boundary where either verdict is accepted.
+        The statement is exact ("more than the configured latency"): publish times are whole milliseconds, so an update
+        exactly latency (+ bet delay) after the request is NOT after it.  Only where the delay itself is a float sum that
+        cannot be represented (0.12 + 5 is not 5.12) the comparison of the implementation may legitimately fall either
+        way: that case - exact decimal arithmetic and plain float arithmetic disagree - is the only one left open."""
         if elapsed_s > d + 1e-6:
             return 1
         if elapsed_s < d - 1e-6:
             return -1
+        if rec is None:
+            return 0
+        from decimal import Decimal
+
+        elapsed_ms = int(round(elapsed_s * 1000.0))
+        exact = Decimal(elapsed_ms) - (Decimal(repr(float(rec["lat"]))) + Decimal(repr(float(rec["bd"])))) * 1000
+        plain = (elapsed_ms / 1000.0) > (rec["lat"] + rec["bd"])
+        if exact <= 0 and not plain:
+            return -1
+        if exact > 0 and plain:
+            return 1
         return 0
 
     def on_exec_before(self, pkg):
@@ -107,7 +122,7 @@ class LatencyMonitor(Monitor):
             return
         now = self.run.now_ms
         elapsed = (now - rec["t_req"]) / 1000.0
-        b = self._boundary(elapsed, rec["d"])
+        b = self._boundary(elapsed, rec["d"], rec)
         if b < 0 or (b == 0 and self.t.dyadic):
             self.violate(self.P, "C07.not-early", "executed-before-delay:%s" % rec["kind"], elapsed=elapsed, delay=rec["d"], latency=rec["lat"], bet_delay=rec["bd"], t_req=rec["t_req"], now=now)
         if b == 0:
@@ -161,7 +176,9 @@ class LatencyMonitor(Monitor):
             if rec["mid"] != mid:
                 continue
             elapsed = (now - rec["t_req"]) / 1000.0
-            b = self._boundary(elapsed, rec["d"])
+            b = self._boundary(elapsed, rec["d"], rec)
+            if abs(elapsed - rec["d"]) <= 1e-6 and now != rec["t_req"]:
+                self.res.probes["c07.update_exactly_at_the_delay%s" % ("" if b else ":float-fragile")] += 1
             if not (now == rec["t_req"] and rec["req_index"] == j):
                 if b > 0:
                     self.violate(self.P, "C07.not-late", "not-executed-at-effective-update:%s" % rec["kind"], elapsed=elapsed, delay=rec["d"], t_req=rec["t_req"], now=now)
